@@ -78,11 +78,23 @@ Definition dp_top (t : top) : nat := match t with TopP p => dp_path p | TopL l =
 (** ** fixup t is canonical                                             *)
 (* ------------------------------------------------------------------ *)
 
+Lemma kw_form_not_omitted : forall isf t body, t = LAnd \/ t = LOr ->
+  kw_omitted isf t body (open_s isf ++ kw_text t ++ bs "," ++ body ++ close_s isf) = false.
+Proof.
+  intros isf t body Ht. unfold kw_omitted.
+  destruct (str_eqb (open_s isf ++ kw_text t ++ bs "," ++ body ++ close_s isf)
+                    (open_s isf ++ body ++ close_s isf)) eqn:E; [|apply andb_false_r].
+  exfalso. apply str_eqb_eq in E. apply (f_equal (@length ascii)) in E. rewrite !app_length in E.
+  destruct Ht as [->| ->]; cbn [kw_text bs list_ascii_of_string length] in E; lia.
+Qed.
+
 Definition F1P (uni : uclass) (p : path) : Prop :=
   wcanon_path uni p -> forall me,
-    canon_path uni (fix_path me p) /\ path_isf (fix_path me p) = path_isf p /\ path_me (fix_path me p) = me.
+    canon_path uni (fix_path me p) /\ path_isf (fix_path me p) = path_isf p /\ path_me (fix_path me p) = me /\
+    kws_path (fix_path me p).
 Definition F1L (uni : uclass) (l : logop) : Prop :=
-  wcanon_logop uni l -> canon_logop uni (fix_logop l) /\ logop_isf (fix_logop l) = logop_isf l.
+  wcanon_logop uni l ->
+  canon_logop uni (fix_logop l) /\ logop_isf (fix_logop l) = logop_isf l /\ kws_logop (fix_logop l).
 
 Lemma all_P_map : forall {A B} (P : B -> Prop) (f : A -> B) l, Forall (fun x => P (f x)) l -> all_P P (map f l).
 Proof. intros A B P f l H. apply all_P_Forall, Forall_map. exact H. Qed.
@@ -91,35 +103,49 @@ Lemma fix_canon : forall uni, (forall p, F1P uni p) /\ (forall f : func, True) /
 Proof.
   intros uni. apply ast_ind3.
   - intros inv root isf me0 ops us HF (Hri & Hops) me.
-    cbn [fix_path path_isf path_me]. split; [|split; reflexivity].
-    cbn [canon_path]. split; [reflexivity|]. split; [exact Hri|]. split; [reflexivity|].
-    apply all_P_map. apply all_P_Forall in Hops.
-    refine (Forall_and2 _ _ _ ops _ HF Hops).
-    intros [k q us1|l us1|[inv1 ft ps us1]] Ho Hw; cbn [Po_of] in Ho; cbn [wcanon_pathop] in Hw;
-      cbn [fix_pathop canon_pathop].
-    + split; [exact Hw|reflexivity].
-    + destruct (Ho (proj1 Hw)) as (H1 & H2). split; [exact H1|]. split; [|reflexivity].
-      rewrite H2. exact (proj2 Hw).
-    + cbn [canon_func]. split; [reflexivity|]. split; [exact (proj1 Hw)|]. split; [reflexivity|exact (proj2 Hw)].
+    apply all_P_Forall in Hops.
+    cbn [fix_path path_isf path_me]. split; [|split; [reflexivity|split; [reflexivity|]]].
+    + cbn [canon_path]. split; [reflexivity|]. split; [exact Hri|]. split; [reflexivity|].
+      apply all_P_map.
+      refine (Forall_and2 _ _ _ ops _ HF Hops).
+      intros [k q us1|l us1|[inv1 ft ps us1]] Ho Hw; cbn [Po_of] in Ho; cbn [wcanon_pathop] in Hw;
+        cbn [fix_pathop canon_pathop].
+      * split; [exact Hw|reflexivity].
+      * destruct (Ho (proj1 Hw)) as (H1 & H2 & _). split; [exact H1|]. split; [|reflexivity].
+        rewrite H2. exact (proj2 Hw).
+      * cbn [canon_func]. split; [reflexivity|]. split; [exact (proj1 Hw)|]. split; [reflexivity|exact (proj2 Hw)].
+    + cbn [kws_path]. apply all_P_map.
+      refine (Forall_and2 _ _ _ ops _ HF Hops).
+      intros [k q us1|l us1|[inv1 ft ps us1]] Ho Hw; cbn [Po_of] in Ho; cbn [wcanon_pathop] in Hw;
+        cbn [fix_pathop kws_pathop]; try exact I.
+      exact (proj2 (proj2 (Ho (proj1 Hw)))).
   - intros; exact I.
   - intros inv isf t xs us HF (Ht & Hxs).
-    cbn [fix_logop logop_isf]. split; [|reflexivity].
-    cbn [canon_logop]. split; [reflexivity|]. split; [exact Ht|]. split; [reflexivity|].
-    apply all_P_map. apply all_P_Forall in Hxs.
-    refine (Forall_and2 _ _ _ xs _ HF Hxs).
-    intros [p|l] Hx Hw; cbn [Px_of] in Hx; cbn [wcanon_operand] in Hw; cbn [fix_operand canon_operand].
-    + destruct (Hx (proj1 Hw) true) as (H1 & H2 & H3). split; [exact H1|]. split; [|exact H3].
-      rewrite H2. exact (proj2 Hw).
-    + destruct (Hx (proj1 Hw)) as (H1 & H2). split; [exact H1|]. rewrite H2. exact (proj2 Hw).
+    apply all_P_Forall in Hxs.
+    cbn [fix_logop logop_isf]. split; [|split; [reflexivity|]].
+    + cbn [canon_logop]. split; [reflexivity|]. split; [exact Ht|]. split.
+      { cbn [render_logop]. rewrite kw_form_not_omitted by exact Ht. reflexivity. }
+      apply all_P_map.
+      refine (Forall_and2 _ _ _ xs _ HF Hxs).
+      intros [p|l] Hx Hw; cbn [Px_of] in Hx; cbn [wcanon_operand] in Hw; cbn [fix_operand canon_operand].
+      * destruct (Hx (proj1 Hw) true) as (H1 & H2 & H3 & _). split; [exact H1|]. split; [|exact H3].
+        rewrite H2. exact (proj2 Hw).
+      * destruct (Hx (proj1 Hw)) as (H1 & H2 & _). split; [exact H1|]. rewrite H2. exact (proj2 Hw).
+    + cbn [kws_logop]. split; [apply kw_form_not_omitted; exact Ht|].
+      apply all_P_map.
+      refine (Forall_and2 _ _ _ xs _ HF Hxs).
+      intros [p|l] Hx Hw; cbn [Px_of] in Hx; cbn [wcanon_operand] in Hw; cbn [fix_operand kws_operand].
+      * exact (proj2 (proj2 (proj2 (Hx (proj1 Hw) true)))).
+      * exact (proj2 (proj2 (Hx (proj1 Hw)))).
 Qed.
 
-Theorem fixup_canon : forall uni t, wcanon uni t -> canon uni (fixup t).
+Theorem fixup_canon : forall uni t, wcanon uni t -> canon uni (fixup t) /\ kws (fixup t).
 Proof.
-  intros uni [p|l] H; cbn [wcanon] in H; cbn [fixup canon].
-  - destruct (proj1 (fix_canon uni) p (proj1 H) false) as (H1 & H2 & H3).
-    split; [exact H1|]. split; [|exact H3]. rewrite H2. exact (proj2 H).
-  - destruct (proj2 (proj2 (fix_canon uni)) l (proj1 H)) as (H1 & H2).
-    split; [exact H1|]. rewrite H2. exact (proj2 H).
+  intros uni [p|l] H; cbn [wcanon] in H; cbn [fixup canon kws].
+  - destruct (proj1 (fix_canon uni) p (proj1 H) false) as (H1 & H2 & H3 & H4).
+    split; [|exact H4]. split; [exact H1|]. split; [|exact H3]. rewrite H2. exact (proj2 H).
+  - destruct (proj2 (proj2 (fix_canon uni)) l (proj1 H)) as (H1 & H2 & H3).
+    split; [|exact H3]. split; [exact H1|]. rewrite H2. exact (proj2 H).
 Qed.
 
 (* ------------------------------------------------------------------ *)
@@ -214,14 +240,14 @@ Theorem sprint_top_fixup : forall uni t, wcanon uni t ->
   sprint_top t = items_text (its_top true (fixup t)) /\ sprint_top (fixup t) = sprint_top t.
 Proof.
   intros uni t Hw Hd.
-  pose proof (fixup_canon uni t Hw) as Hc.
+  destruct (fixup_canon uni t Hw) as (Hc & Hk).
   assert (E : sprint_top t = items_text (its_top true (fixup t))).
-  { destruct t as [p|l]; cbn [fixup canon sprint_top its_top dp_top top_us] in *.
+  { destruct t as [p|l]; cbn [fixup canon kws sprint_top its_top dp_top top_us] in *.
     - rewrite <- (proj1 fix_sprint p false).
-      apply (proj1 (text_B uni) _ (proj1 Hc)). rewrite (proj1 fix_depth). exact Hd.
+      apply (proj1 (text_B uni) _ (proj1 Hc) Hk). rewrite (proj1 fix_depth). exact Hd.
     - rewrite <- (proj2 (proj2 fix_sprint) l).
-      apply (proj2 (proj2 (text_B uni)) _ (proj1 Hc)). rewrite (proj2 (proj2 fix_depth)). exact Hd. }
-  split; [exact E|]. rewrite E. apply (sprint_items uni). exact Hc.
+      apply (proj2 (proj2 (text_B uni)) _ (proj1 Hc) Hk). rewrite (proj2 (proj2 fix_depth)). exact Hd. }
+  split; [exact E|]. rewrite E. apply (sprint_items uni); assumption.
 Qed.
 
 (** canonical operations are weakly canonical *)
@@ -303,9 +329,9 @@ Definition lit_ok_b (v : str) : bool :=
 
 Lemma lit_ok_b_sound : forall v, lit_ok_b v = true -> lit_ok v.
 Proof.
-  intros v H. unfold lit_ok_b in H.
-  destruct (chars_fuel (S (length (escape v))) (escape v)) as [cs|] eqn:E; [|discriminate].
-  exists cs. split; [exact E|exact H].
+  intros v. unfold lit_ok_b, lit_ok.
+  generalize (chars_fuel (S (length (escape v))) (escape v)).
+  intros [cs|] H; [exists cs; split; [reflexivity|exact H]|discriminate].
 Qed.
 
 Definition lit_param_ok_b (p : param) : bool :=
@@ -359,7 +385,7 @@ with canon_logop_b (uni : uclass) (l : logop) {struct l} : bool :=
   match l with
   | LogOp inv isf t xs us =>
     negb inv && lot_ok_b t &&
-    str_eqb us (open_s isf ++ kw_text t ++ bs "," ++ concat_str (bs ",") (map render_operand xs) ++ close_s isf) &&
+    str_eqb us (render_logop (LogOp inv isf t xs us)) &&
     forallb (canon_operand_b uni isf) xs
   end
 with canon_operand_b (uni : uclass) (isf : bool) (x : operand) {struct x} : bool :=
@@ -508,4 +534,51 @@ Proof.
   intros uni [p|l] H; cbn [wcanon_b] in H; cbn [wcanon]; apply andb_true_iff in H; destruct H as [H1 H2].
   - split; [apply (proj1 (wcanon_b_sound_all uni)); exact H1|apply negb_true_false; exact H2].
   - split; [apply (proj2 (proj2 (wcanon_b_sound_all uni))); exact H1|apply negb_true_false; exact H2].
+Qed.
+
+Fixpoint kws_path_b (p : path) {struct p} : bool :=
+  match p with Path _ _ _ _ ops _ => forallb kws_pathop_b ops end
+with kws_pathop_b (o : pathop) {struct o} : bool :=
+  match o with PFilter l _ => kws_logop_b l | _ => true end
+with kws_logop_b (l : logop) {struct l} : bool :=
+  match l with
+  | LogOp _ isf t xs us =>
+    negb (kw_omitted isf t (concat_str (bs ",") (map render_operand xs)) us) && forallb kws_operand_b xs
+  end
+with kws_operand_b (x : operand) {struct x} : bool :=
+  match x with OpP p => kws_path_b p | OpL l => kws_logop_b l end.
+Definition kws_b (t : top) : bool := match t with TopP p => kws_path_b p | TopL l => kws_logop_b l end.
+
+Lemma kws_b_sound_all :
+  (forall p, kws_path_b p = true -> kws_path p) /\ (forall f : func, True) /\
+  (forall l, kws_logop_b l = true -> kws_logop l).
+Proof.
+  apply ast_ind3.
+  - intros inv root isf me ops us HF H. cbn [kws_path_b] in H. cbn [kws_path].
+    refine (forallb_all_P _ _ ops _ H). eapply Forall_impl; [|exact HF].
+    intros [k q us1|l us1|f] Ho Hb; cbn [Po_of] in Ho; cbn [kws_pathop_b] in Hb; cbn [kws_pathop]; try exact I.
+    apply Ho. exact Hb.
+  - intros; exact I.
+  - intros inv isf t xs us HF H. cbn [kws_logop_b] in H. apply andb_true_iff in H. destruct H as [H1 H2].
+    cbn [kws_logop]. split; [apply negb_true_false; exact H1|].
+    refine (forallb_all_P _ _ xs _ H2). eapply Forall_impl; [|exact HF].
+    intros [p|l] Hx Hb; cbn [Px_of] in Hx; cbn [kws_operand_b] in Hb; cbn [kws_operand]; apply Hx; exact Hb.
+Qed.
+
+Theorem kws_b_sound : forall t, kws_b t = true -> kws t.
+Proof.
+  intros [p|l] H; cbn [kws_b] in H; cbn [kws].
+  - apply (proj1 kws_b_sound_all). exact H.
+  - apply (proj2 (proj2 kws_b_sound_all)). exact H.
+Qed.
+
+(** the two spellings of a canonical group *)
+Lemma canon_logop_forms : forall uni inv isf t xs us, canon_logop uni (LogOp inv isf t xs us) ->
+  us = open_s isf ++ kw_text t ++ bs "," ++ log_body xs ++ close_s isf \/
+  (t = LAnd /\ us = open_s isf ++ log_body xs ++ close_s isf).
+Proof.
+  intros uni inv isf t xs us (_ & _ & Hus & _). cbn [render_logop] in Hus. fold (log_body xs) in Hus.
+  destruct (kw_omitted isf t (log_body xs) us) eqn:E; [right|left; exact Hus].
+  split; [|exact Hus]. unfold kw_omitted in E. apply andb_true_iff in E.
+  destruct t; try discriminate (proj1 E); reflexivity.
 Qed.
